@@ -98,6 +98,24 @@ pub fn run(rec: &mut Recorder, w: &mut World, tier: &str, seed: u64) {
                     rec.nontrivial_case(&descr);
                     continue;
                 }
+                // a `clear_policy` that fails in the file adapter's own write (its temporary file cannot be created): nothing is
+                // cleared, the enforcer keeps the subset, and the guard must stay (implementation only: the fault is a real one)
+                if flag == "true" && kind == "file" && rng.chance(1, 2) {
+                    rec.exec_impl_only(w, "fs.blocktmp");
+                    let rc = rec.exec_impl_only(w, "e.clear");
+                    let got6 = rec.exec_impl_only(w, "e.pol");
+                    let flag6 = rec.exec_impl_only(w, "e.filtered");
+                    rec.exec_impl_only(w, "fs.unblocktmp");
+                    if !rc.starts_with("err") { rec.fail("failed-clear-not-reported", format!("{}: clear_policy with the adapter's temporary file blocked -> {}", descr, rc)); }
+                    else if got6 != got { rec.fail("failed-clear-changed-policy", format!("{}: after the failed clear_policy the enforcer holds {} (was {})", descr, got6, got)); }
+                    else if flag6 != "true" { rec.fail("filtered-flag-lost", format!("{}: after a failed clear_policy is_filtered = {} although the enforcer still holds only the subset {}", descr, flag6, got6)); }
+                    let s = rec.exec_impl_only(w, "e.save");
+                    if rc.starts_with("err") && s != "panic" { rec.fail("filtered-save-allowed", format!("{}: after a failed clear_policy save_policy returned {}", descr, s)); }
+                    rec.count("failed-clear-on-filtered-file-enforcer");
+                    rec.count(&format!("adapter:{}", kind));
+                    rec.nontrivial_case(&descr);
+                    continue;
+                }
                 // the store is edited and saved between two filtered loads: full load, an addition and a removal with auto-save
                 // off, save_policy, the same filtered load again — it selects from what is stored now
                 if rng.chance(1, 4) {
